@@ -25,7 +25,12 @@ def _one(args):
         if p.returncode != 0:
             return name, kind, 'stale', ''
         env = dict(os.environ, QSVERIF_EVIDENCE_DIR=os.path.join(d, '.ev'), VERIF_TIER='quick')
-        p = subprocess.run([os.path.join(VERIF, 'check'), pid, '--tier', 'quick', '--root', d], cwd=VERIF, env=env, stdout=subprocess.PIPE, stderr=subprocess.STDOUT, text=True)
+        try:
+            p = subprocess.run([os.path.join(VERIF, 'check'), pid, '--tier', 'quick', '--root', d], cwd=VERIF, env=env, stdout=subprocess.PIPE, stderr=subprocess.STDOUT, text=True,
+                               timeout=int(os.environ.get('QSVERIF_VARIANT_TIMEOUT', '300')))
+        except subprocess.TimeoutExpired:
+            # the engine forks at every call of a helper with several outcomes; a variant that calls one from many places can take minutes (DESIGN 9.1-31c): counted, not waited for
+            return name, kind, 'timeout', ''
         m = re.search(r'^%s (HOLDS-ON-DECIDED-CLAUSES|HOLDS|VIOLATION|ANALYSIS-ERROR) tier' % pid, p.stdout, re.M)
         verdict = m.group(1) if m else 'ANALYSIS-ERROR'
         rules = sorted(set(re.findall(r'^  rule=(\S+)', p.stdout, re.M)))
@@ -47,12 +52,15 @@ def run_selftest(pid, root):
             jobs.append((pid, root, name, 'preserving'))
         elif meta.get('property') == pid:
             jobs.append((pid, root, name, 'breaking'))
-    res = {'variants': len(jobs), 'breaking_total': 0, 'breaking_fired': 0, 'preserving_total': 0, 'preserving_silent': 0, 'stale': 0,
+    res = {'variants': len(jobs), 'breaking_total': 0, 'breaking_fired': 0, 'preserving_total': 0, 'preserving_silent': 0, 'stale': 0, 'timed_out': [],
            'missed': [], 'false_alarms': [], 'undecided_on_preserving': [], 'fired': {}}
     with ThreadPoolExecutor(min(14, (os.cpu_count() or 4))) as ex:
         for name, kind, verdict, rules in ex.map(_one, jobs):
             if verdict == 'stale':
                 res['stale'] += 1
+                continue
+            if verdict == 'timeout':
+                res['timed_out'].append(name)
                 continue
             if kind == 'breaking':
                 res['breaking_total'] += 1
